@@ -95,6 +95,7 @@ func H_C11_order() {
 func H_C11_padwide() {
 	vrtSpec(2, 1, 2, "x", smASCII, nfInt, 0)
 	vrtBudget(3000000)
+	vrtMaxAlloc(200)
 	w := vrtIntRange("w", 0, 100)
 	forms := []string{"pad_left(a, c, b)", "pad_right(a, c, b)", "length(pad_left(a, c, b))", "pad_left(a, c)", "pad_right(a, c)"}
 	expr := forms[vrtChoose("form", len(forms))]
